@@ -4,8 +4,8 @@ spec/DbReg.tla is the reference semantics (`Step`: registry descriptors + regist
 migration runner; the statement G1..G7 is at its top), DbRegGen checks the laws of that model breadth-first
 and generates operation histories (process start with or without registry persistence / through the module
 system, Initialize, Register, first use, InjectDatabase, Withdraw, storage failures, Maintain*, Shutdown,
-migration Add / Migrate with failing steps and unwritable version records, process restarts on the same
-data directory), harness/cmd/dbreg runs them against the real packages (one child process per process
+migration Add / Migrate with failing steps and unwritable version records, first uses / injections /
+registrations racing a Shutdown, process restarts on the same data directory), harness/cmd/dbreg runs them against the real packages (one child process per process
 lifetime), DbRegTrace decides every recorded step.
 """
 import json
@@ -48,12 +48,20 @@ def step_class(hist, ej):
         return "%s:%s:%s%s%s" % (res.get("err"), name, "after-shutdown" if shut else "running",
                                  "" if inited else ":uninitialized", ":persistent" if per else "")
     where = "after-shutdown" if shut else "running"
+    # the registry file
+    odd = [f["n"].split(":")[0] for f in ev.get("file", []) if str(f.get("n", "")).startswith("?")]
+    if odd:
+        return "registry-file:%s:%s" % (odd[0].lstrip("?"), where)
+    prev_file = next((e.get("file") for e in reversed(hist[:ej]) if e.get("e") == "op"), [])
+    changes_registry = name == "register" or any(q.get("op") == "register" for q in o.get("par") or [])
+    if not changes_registry and ev.get("file") != prev_file and \
+            {f["n"] for f in ev.get("file", [])} != {f["n"] for f in prev_file or []}:
+        return "registry-file:entries-changed-by-%s:%s" % (name, where)
     if name == "migrate":
-        runs = res.get("runs", [])
-        ids = [r["id"] for r in runs]
-        extra = []
+        ids = [r["id"] for r in res.get("runs", [])]
         if len(set(ids)) < len(ids):
-            extra.append("ran-twice")
+            return "migrate:%s:ran-twice" % where
+        extra = []
         if o.get("vetoes"):
             extra.append("version-unwritable")
         if o.get("fails"):
@@ -65,6 +73,9 @@ def step_class(hist, ej):
                                     "failing-storage" if kind in failing else "healthy", res.get("err"))
     if name == "register":
         return "register:%s:%s:err=%s" % (where, "persistent" if per else "volatile", res.get("err"))
+    if name == "race":
+        return "race:%s:%s:errs=%s" % (where, "+".join(sorted(q["op"] for q in o.get("par", []))),
+                                       ",".join(sorted(set(res.get("errs", [])))))
     return "%s:%s:err=%s" % (name, where, res.get("err"))
 
 
@@ -126,13 +137,13 @@ def run(ctx):
     # 1. laws of the reference semantics on every reachable state (exhaustive to a small depth); beside the pipeline
     def laws():
         return [ctx.tlc("DbRegGen", cfg_text=vlib.cfg_text(
-            constants={"MaxLen": 6 if quick else 8, "MaxProcs": 2, "MaxVer": 2, "Focus": '"life"', "Emit": False},
+            constants={"MaxLen": 5 if quick else 7, "MaxProcs": 2, "MaxVer": 2, "Focus": '"life"', "Emit": False},
             invariants=["Laws"], view="View"), workers=max(2, vlib.NCPU // 2), timeout=3000)]
     from concurrent.futures import ThreadPoolExecutor
     pool = ThreadPoolExecutor(max_workers=1)
     laws_future = pool.submit(laws)
     # 2. histories from the specification
-    nsim = 2400 if quick else 40000
+    nsim = 1600 if quick else 40000
     scripts = generate(ctx, nsim)
     if len(scripts) < nsim // 2:
         raise vlib.Inconclusive("history generation produced only %d scripts" % len(scripts))
@@ -169,7 +180,8 @@ def run(ctx):
         "traces_validated_against_impl": ok,
         "evaluations": len(scripts), "distinct_nontrivial": distinct,
         "rule": "operation histories generated by TLC -simulate from spec/DbRegGen.tla (12 to 26 operations over 1 to 4 "
-                "process lifetimes on one data directory; focus on the registry and life cycle, on migrations, or mixed); "
+                "process lifetimes on one data directory; focus on the registry and life cycle, on migrations, or mixed; "
+                "about a third of the life-cycle histories contain operations racing each other); "
                 "non-trivial = a database is registered and then used or injected, or a migration is added and a run "
                 "attempted; distinct by content hash",
         "events_validated": nevents, "process_lifetimes": nprocs, "histories_unexamined_after_rejections": unex,
@@ -183,7 +195,9 @@ def run(ctx):
         "the fields of the Diagnostics, the stored version, and the content of databases.json after the step",
         "storages are recording wrappers around the real hashmap (volatile) and fstree (persistent) storages; storage "
         "failures are injected by the wrappers; a version record that cannot be written is a failing Put of the wrapper",
-        "sequential histories; a process lifetime is a child process of the driver and ends without notice (what is not "
+        "sequential histories with free-running races in them (2 to 4 operations released at the same time, each from "
+        "its own goroutine: the interleaving is the Go scheduler's choice, TLC accepts every interleaving of the critical "
+        "sections); a process lifetime is a child process of the driver and ends without notice (what is not "
         "on disk is lost); the registry writer's write at shutdown is asynchronous, so LastLoaded flags in the file are only "
         "checked for soundness after a shutdown; the periodic tasks of dbmodule (10 min / 1 h) are not waited for: "
         "the functions they call are driven directly, dbmodule itself through modules.Start / modules.Shutdown",
